@@ -144,6 +144,15 @@ class _Ident(collectors.Collector):
                              'model_t': m.timestep, 'pid': _os.getpid(), 'ordinal': m.ordinal})
 
 
+class WarmModel(core.Model):
+    """Accepts the same parameters as VModel, is complete at once, records nothing (used for an EARLIER batch run with the same
+    ParameterList object)."""
+
+    def __init__(self, ctl=None, stop=0, **params):
+        super().__init__()
+        self.complete()
+
+
 class VModel(core.Model):
     """Fresh uuid per construction; stamps every record; completes at `stop`; sleeps a little so completion order varies."""
     __slots__ = ['run_uuid', 'params', 'ordinal', 'fault', 'delay', 'stop', 'ticks']
